@@ -28,7 +28,7 @@ def gen(ctx):
     if not ctx.quick:
         seen = {json.dumps(s) for s in stacks}
         guard = 0
-        while len(stacks) < 150 and guard < 5000:
+        while len(stacks) < 250 and guard < 8000:
             guard += 1
             s = IO.random_stack(rnd)
             if json.dumps(s) not in seen:
@@ -302,7 +302,8 @@ def vg_run(ctx, corr, impl, infos, files, ops):
             for row in per[c]:
                 rc1, so1, se1 = C.sh(VG + [str(impl.exe[(c, "rel")])], 300, input=row[1] + "\n")
                 if rc1 != 0:
-                    bad.append((row, rc1, se1[-1500:]))
+                    first = re.search(r"==\d+== ((?:Conditional jump|Invalid|Use of uninitialised|Syscall param|Mismatched|Source and destination)[^\n]*)", se1)
+                    bad.append((row, rc1, ((first.group(1) + " | ") if first else "") + se1[:1500]))
         return c, rc, bad
     with ThreadPoolExecutor(max_workers=C.NCPU) as ex:
         results = list(ex.map(one, list(per)))
